@@ -46,6 +46,19 @@ type spec struct {
 	// depth) whose condition's source text contains Cond. The result is a Bool.
 	Cond string `json:"cond,omitempty"`
 	Nth  int    `json:"nth,omitempty"`
+	// Deep (statement-range mode): look for From … To in every statement list of the function (blocks, loop and
+	// if bodies, case clauses, at any depth) instead of only its top-level list; the innermost (last found in
+	// source order) list that contains the range is taken. For fragments inside a loop body.
+	Deep bool `json:"deep,omitempty"`
+	// Call mode: translate argument number Arg (0-based) of the first call of the function (at any depth) whose
+	// callee's source text is Call and whose own source text contains Cond (optional; Nth as in cond mode).
+	// The result is a number.
+	Call string `json:"call,omitempty"`
+	Arg  int    `json:"arg,omitempty"`
+	// Byte-slice mode (bytes.go): "mode": "bytes"; Outs are the extra results (receiver fields, slices written
+	// through, locals given as "name:type") returned in front of the Go results. Output goes to -codec.
+	Mode string   `json:"mode,omitempty"`
+	Outs []string `json:"outs,omitempty"`
 }
 
 var fset = token.NewFileSet()
@@ -187,6 +200,15 @@ func (t *tr) expr(e ast.Expr) string {
 		case token.SUB:
 			if t.sp.Num == "Int" {
 				return "(-" + t.expr(v.X) + ")"
+			}
+		case token.XOR:
+			// bitwise complement of a fixed-width unsigned conversion: ^uint16(x) = 65535 - x mod 65536
+			if c, ok := v.X.(*ast.CallExpr); ok && len(c.Args) == 1 {
+				if id, ok := c.Fun.(*ast.Ident); ok {
+					if m, ok := castMod[id.Name]; ok {
+						return fmt.Sprintf("(%s - 1 - (%s %% %s))", m, t.expr(c.Args[0]), m)
+					}
+				}
 			}
 		}
 	case *ast.CallExpr:
@@ -487,6 +509,37 @@ func translate(repo string, sp spec) (string, error) {
 		return "", fmt.Errorf("function %s not found", sp.Func)
 	}
 	t := &tr{sp: sp, repo: repo, file: f, pkgs: map[string]*ast.File{}, locals: map[string]bool{}, consts: map[string]bool{}, rename: map[string]string{}}
+	if sp.Call != "" {
+		var found ast.Expr
+		k := 0
+		ast.Inspect(fd.Body, func(n ast.Node) bool {
+			c, ok := n.(*ast.CallExpr)
+			if ok && found == nil && text(c.Fun) == sp.Call && strings.Contains(text(c), sp.Cond) && sp.Arg < len(c.Args) {
+				k++
+				if k >= max(sp.Nth, 1) {
+					found = c.Args[sp.Arg]
+				}
+			}
+			return true
+		})
+		if found == nil {
+			return "", fmt.Errorf("call of %s containing %q not found in %s", sp.Call, sp.Cond, sp.Func)
+		}
+		body := t.expr(found)
+		if t.err != nil {
+			return "", t.err
+		}
+		var sig strings.Builder
+		for _, p := range sp.Params {
+			ty := p.Type
+			if ty == "" {
+				ty = sp.Num
+			}
+			fmt.Fprintf(&sig, " (%s : %s)", p.Lean, ty)
+		}
+		return fmt.Sprintf("/-- translated from %s `%s`: argument %d of a call of `%s`, `%s` -/\ndef %s%s : %s :=\n  %s\n", sp.File, sp.Func,
+			sp.Arg, sp.Call, strings.ReplaceAll(text(found), "-/", "- /"), sp.Name, sig.String(), sp.Num, body), nil
+	}
 	if sp.Cond != "" {
 		var found ast.Expr
 		k := 0
@@ -526,23 +579,49 @@ func translate(repo string, sp spec) (string, error) {
 	}
 	list := fd.Body.List
 	if sp.From != "" || sp.To != "" {
-		from, to := -1, -1
-		for i, s := range list {
-			tx := text(s)
-			if from < 0 && sp.From != "" && strings.Contains(tx, sp.From) {
-				from = i
+		findRange := func(list []ast.Stmt) []ast.Stmt {
+			from, to := -1, -1
+			for i, s := range list {
+				tx := text(s)
+				if from < 0 && sp.From != "" && strings.Contains(tx, sp.From) {
+					from = i
+				}
+				if sp.To != "" && strings.Contains(tx, sp.To) {
+					to = i
+				}
 			}
-			if sp.To != "" && strings.Contains(tx, sp.To) {
-				to = i
+			if sp.From == "" {
+				from = 0
 			}
+			if from < 0 || to < from {
+				return nil
+			}
+			return list[from : to+1]
 		}
-		if sp.From == "" {
-			from = 0
+		var r []ast.Stmt
+		if sp.Deep {
+			ast.Inspect(fd.Body, func(n ast.Node) bool {
+				var l []ast.Stmt
+				switch v := n.(type) {
+				case *ast.BlockStmt:
+					l = v.List
+				case *ast.CaseClause:
+					l = v.Body
+				case *ast.CommClause:
+					l = v.Body
+				}
+				if x := findRange(l); x != nil {
+					r = x
+				}
+				return true
+			})
+		} else {
+			r = findRange(list)
 		}
-		if from < 0 || to < from {
+		if r == nil {
 			return "", fmt.Errorf("statement range not found in %s", sp.Func)
 		}
-		list = list[from : to+1]
+		list = r
 	}
 	// named results are mutable variables
 	if fd.Type.Results != nil && sp.From == "" {
@@ -611,6 +690,7 @@ func main() {
 	repo := flag.String("repo", "/repo", "")
 	specPath := flag.String("spec", "translate.json", "")
 	leanOut := flag.String("lean", "", "")
+	codecOut := flag.String("codec", "", "output of the byte-slice mode (fragments with \"mode\": \"bytes\")")
 	flag.Parse()
 	raw, err := os.ReadFile(*specPath)
 	if err != nil {
@@ -638,6 +718,21 @@ func main() {
 		}
 		specs = append(specs, extra...)
 	}
+	// fragments of the byte-slice mode are translated by bytes.go into their own file
+	var byteSpecs []spec
+	n := 0
+	for _, sp := range specs {
+		if sp.Mode == "bytes" {
+			byteSpecs = append(byteSpecs, sp)
+		} else {
+			specs[n] = sp
+			n++
+		}
+	}
+	specs = specs[:n]
+	if *codecOut != "" {
+		writeIfChanged(*codecOut, generateCodec(*repo, byteSpecs))
+	}
 	var b strings.Builder
 	b.WriteString("/- GENERATED by /verif/extract/gotolean from /repo's working tree. Do not edit. -/\nnamespace MosVerif.Translated\n\n")
 	for _, sp := range specs {
@@ -656,7 +751,7 @@ func main() {
 			if rt == "" {
 				rt = sp.Num
 			}
-			if sp.Cond != "" {
+			if sp.Cond != "" && sp.Call == "" {
 				rt = "Bool"
 			}
 			fmt.Fprintf(&b, "/-- TRANSLATION FAILED: %s -/\nopaque %s%s : %s\n\n", strings.ReplaceAll(err.Error(), "-/", "- /"), sp.Name, sig.String(), rt)
@@ -670,9 +765,13 @@ func main() {
 		fmt.Print(b.String())
 		return
 	}
-	old, _ := os.ReadFile(*leanOut)
-	if string(old) != b.String() {
-		if err := os.WriteFile(*leanOut, []byte(b.String()), 0o644); err != nil {
+	writeIfChanged(*leanOut, b.String())
+}
+
+func writeIfChanged(path, content string) {
+	old, _ := os.ReadFile(path)
+	if string(old) != content {
+		if err := os.WriteFile(path, []byte(content), 0o644); err != nil {
 			fmt.Fprintln(os.Stderr, err)
 			os.Exit(2)
 		}
